@@ -12,6 +12,10 @@ type WorkSpace struct {
 	state   engine.WorkSpaceState
 	using   bool
 	rootDir string
+	// reqEpoch is advanced (under SpaceKeeper.stateLock) whenever outstanding plot/mine
+	// requests of this space are cancelled by stop/remove/delete; a queued request
+	// remembers the epoch it was issued in and is dropped by the plotter if it is stale.
+	reqEpoch uint64
 }
 
 // NewWorkSpace loads MassDB from given rootDir with PubKey&BitLength,
